@@ -1,4 +1,4 @@
-\* quick: every small well-formed file (<= 2 types, <= 2 items, <= 2 data blocks, both versions);
+\* small: as quick, but every base is corrupted
 \* all corruptions of the structurally maximal ones. Laws checked + cases printed.
 SPECIFICATION Spec
 CONSTANTS
@@ -8,6 +8,6 @@ CONSTANTS
   DataLenSeqs <- DataLenSeqsQ
   Versions <- VersionsAll
   Fixups = TRUE
-  CorruptAll = FALSE
+  CorruptAll = TRUE
   Emit = TRUE
 INVARIANT Laws
